@@ -107,7 +107,13 @@ func RunC14(tier string) int {
 				}
 			}
 		}
-		env, err := NewEnv(st.Base, fmt.Sprintf("c%d", i), st.Grog, st.Vctl, s, randCfg(r))
+		gcfg := randCfg(r)
+		if i%3 == 2 {
+			// the rules are the same when cached outputs are only loaded on demand
+			gcfg.LoadOutputs = "minimal"
+			run.Count("histories_with_load_outputs_minimal", 1)
+		}
+		env, err := NewEnv(st.Base, fmt.Sprintf("c%d", i), st.Grog, st.Vctl, s, gcfg)
 		if err != nil {
 			run.Infra(err.Error())
 			return
